@@ -37,7 +37,9 @@ RUN_TIMEOUT_S = 120          # a single run may never take that long
 
 def load_world(prop):
     build.activate(need_kernel=True)
-    return importlib.import_module("worlds." + WORLD_OF[prop])
+    world = importlib.import_module("worlds." + WORLD_OF[prop])
+    core.arm_canary(world)      # before any run and before the workers are forked
+    return world
 
 
 # --------------------------------------------------------------- workers
